@@ -493,7 +493,8 @@ Proof. exact src_cli_analyze_is_model. Qed.
 Print Assumptions C20_model_is_source_cli_analyze.
 
 (* what a run whose loads succeed reports, in order: the similarity matrix of the loaded --screen and the concatenation of
-   ALL --thetas files (argument order); five plots; the summary of the loaded --model-evaluation, each metric under its key *)
+   ALL --thetas files (argument order); five plots (the two that bootstrap a regression band with seed=--seed, see C18); the
+   summary of the loaded --model-evaluation, each metric under its key *)
 Theorem C20_source_report_contents :
   forall (Scr Th Ev Co F : Type) (L : an_lib Scr Th Ev Co F) (a : an_args) hs th scr e c,
   res_map_all (an_load_thetas L) (an_thetas a) = Ok hs ->
@@ -504,8 +505,8 @@ Theorem C20_source_report_contents :
   src_cli_analyze Scr Th Ev Co F L a
   = Ok [AnMkdir (an_output_dir a);
         AnHeat c (an_output_dir a, N_heat);
-        AnScatter e (an_output_dir a, N_scatter);
-        AnScatterSample e (an_output_dir a, N_scatter_sample);
+        AnScatter e (an_output_dir a, N_scatter) (Some (an_seed a));
+        AnScatterSample e (an_output_dir a, N_scatter_sample) (Some (an_seed a));
         AnViolin e (an_output_dir a, N_violin) None;
         AnViolin e (an_output_dir a, N_violin99) (Some 99%Z);
         AnSummary (mk_an_summary (an_mse L e) (an_mse_variance L e) (an_inter_chain L e)) (an_output_dir a, N_summary)].
@@ -540,8 +541,8 @@ Definition ex_an_lib : an_lib unit (list unit) evaluation nat (result Qc) :=
      an_mse := src_ev_mse; an_mse_variance := src_ev_mse_variance; an_inter_chain := src_ev_inter_chain_mse_variance 2 |}.
 Example C20_source_report_example :
   mk_eval 2 (ev_preds ex_an_eval) (ev_obs ex_an_eval) (ev_chains ex_an_eval) (ev_names ex_an_eval) = Ok ex_an_eval
-  /\ match src_cli_analyze _ _ _ _ _ ex_an_lib (mk_an_args [1%Z] [2%Z] [[3%Z]; [4%Z]; [5%Z]] [6%Z]) with
-     | Ok [AnMkdir [6%Z]; AnHeat 3%nat _; AnScatter _ _; AnScatterSample _ _; AnViolin _ _ None; AnViolin _ _ (Some 99%Z);
+  /\ match src_cli_analyze _ _ _ _ _ ex_an_lib (mk_an_args [1%Z] [2%Z] [[3%Z]; [4%Z]; [5%Z]] [6%Z] 7%Z) with
+     | Ok [AnMkdir [6%Z]; AnHeat 3%nat _; AnScatter _ _ (Some 7%Z); AnScatterSample _ _ (Some 7%Z); AnViolin _ _ None; AnViolin _ _ (Some 99%Z);
            AnSummary s ([6%Z], N_summary)] =>
          sum_mse s = Ok (q 1 4) /\ sum_mse_variance s = Ok (q 1 16) /\ sum_inter_chain s = Ok (q 1 16)
      | _ => False
